@@ -40,6 +40,8 @@ def resolve(t):
         return (t[0], resolve(t[1]))
     if isinstance(t, tuple) and t[0] == "Tup":
         return ("Tup", tuple(resolve(x) for x in t[1]))
+    if isinstance(t, tuple) and t[0] == "KDict":
+        return ("KDict", resolve(t[1]), resolve(t[2]))
     return t
 
 
@@ -77,6 +79,9 @@ def show_ty(t):
     if isinstance(t, tuple) and t[0] == "List":
         inner = show_ty(t[1])
         return f"List {inner}" if " " not in inner else f"List ({inner})"
+    if isinstance(t, tuple) and t[0] == "KDict":
+        k_, v_ = show_ty(t[1]), show_ty(t[2])
+        return "List (" + (k_ if " " not in k_ else f"({k_})") + " × " + (v_ if " " not in v_ else f"({v_})") + ")"
     if isinstance(t, tuple) and t[0] == "Tup":
         parts = [show_ty(x) for x in t[1]]
         return " × ".join(q if " " not in q else f"({q})" for q in parts)
@@ -103,7 +108,8 @@ def ann_type(a):
              "Sequence[int]": ("List", "Int"), "list[int]": ("List", "Int"), "Any": ("List", "Int"),
              "Sequence[Any]": ("List", "Int"), "list[list[int]]": ("List", ("List", "Int")),
              "list[Any]": ("List", "Int"), "Dict[str, list[int]]": ("Dict", ("List", "Int")),
-             "List": ("List", "Int"), "List[int]": ("List", "Int"), "list": ("List", "Int")}
+             "List": ("List", "Int"), "List[int]": ("List", "Int"), "list": ("List", "Int"),
+             "list[str]": ("List", "Str"), "Optional[list[int]]": ("Opt", ("List", "Int"))}
     if s not in table:
         raise Unsupported(f"annotation {s}")
     return table[s]
@@ -213,6 +219,12 @@ class FnTranslator:
         if isinstance(n, ast.Subscript):
             if isinstance(n.slice, ast.Slice):
                 if n.slice.step is not None:
+                    if n.slice.lower is None and n.slice.upper is None and isinstance(n.slice.step, ast.UnaryOp) \
+                            and isinstance(n.slice.step.op, ast.USub) and isinstance(n.slice.step.operand, ast.Constant) \
+                            and n.slice.step.operand.value == 1:
+                        b1, c1, t1 = self._expr(n.value, env)
+                        unify(t1, ("List", Cell()))
+                        return b1, f"(List.reverse {c1})", t1       # x[::-1]
                     raise Unsupported("slice with a step")
                 b1, c1, t1 = self._expr(n.value, env)
                 unify(t1, ("List", Cell()))
@@ -228,6 +240,10 @@ class FnTranslator:
                 return binds, f"(pySlice {c1} {parts[0]} {parts[1]})", t1
             b1, c1, t1 = self._expr(n.value, env)
             b2, c2, t2 = self._expr(n.slice, env)
+            if isinstance(resolve(t1), tuple) and resolve(t1)[0] == "KDict":
+                unify(t2, resolve(t1)[1])
+                v = self.fresh()
+                return b1 + b2 + [f"let {v} ← pyKGet {c1} {c2}"], v, resolve(t1)[2]
             if isinstance(resolve(t1), tuple) and resolve(t1)[0] == "Dict":
                 unify(t2, "Str")
                 v = self.fresh()
@@ -271,6 +287,25 @@ class FnTranslator:
                 cs.append(c)
                 ts.append(t)
             return binds, "(" + ", ".join(cs) + ")", ("Tup", tuple(ts))
+        if isinstance(n, (ast.DictComp, ast.SetComp)):
+            if len(n.generators) != 1 or n.generators[0].ifs or not isinstance(n.generators[0].target, ast.Name):
+                raise Unsupported("comprehension shape")
+            g = n.generators[0]
+            b_it, c_it, t_it = self.iter_expr(g.iter, env)
+            var = g.target.id
+            env2 = dict(env)
+            env2[var] = resolve(t_it)[1]
+            v = self.fresh()
+            if isinstance(n, ast.SetComp):
+                # a set is used for membership only: the list of its elements
+                b_el, c_el, t_el = self._expr(n.elt, env2)
+                body = "; ".join(b_el + [f"pure {c_el}"])
+                return b_it + [f"let {v} ← List.mapM (fun {self.nm(var)} => do {body}) {c_it}"], v, ("List", t_el)
+            bk, ck, tk = self._expr(n.key, env2)
+            bv, cv, tv = self._expr(n.value, env2)
+            body = "; ".join(bk + bv + [f"pure (pyKSet d_ {ck} {cv})"])
+            kt, vt = show_ty(tk), show_ty(tv)
+            return b_it + [f"let {v} ← List.foldlM (fun (d_ : List (({kt}) × ({vt}))) {self.nm(var)} => do {body}) [] {c_it}"], v, ("KDict", tk, tv)
         if isinstance(n, ast.Dict) and not n.keys:
             return [], "[]", ("Dict", Cell())
         if isinstance(n, ast.IfExp):
@@ -335,6 +370,11 @@ class FnTranslator:
         parts = []
         for i, op in enumerate(n.ops):
             (c1, t1, _), (c2, t2, e2) = operands[i], operands[i + 1]
+            if isinstance(op, (ast.In, ast.NotIn)) and isinstance(resolve(t2), tuple) and resolve(t2)[0] == "KDict":
+                unify(t1, resolve(t2)[1])
+                sc = f"(pyKHas {c2} {c1})"
+                parts.append(sc if isinstance(op, ast.In) else f"(!{sc})")
+                continue
             if isinstance(op, (ast.In, ast.NotIn)) and resolve(t2) == "Str":
                 unify(t1, "Str")
                 sc = f"(pyStrContains {c2} {c1})"
@@ -425,7 +465,7 @@ class FnTranslator:
         f = n.func
         if isinstance(f, ast.Name):
             name = f.id
-            if name == "list" and len(n.args) == 1 and not n.keywords:
+            if name in ("list", "tuple") and len(n.args) == 1 and not n.keywords:
                 return self.iter_expr(n.args[0], env)
             if name == "range":
                 return self.range_call(n, env)
@@ -511,6 +551,9 @@ class FnTranslator:
         return binds + [f"let {v} ← {sig.lean_name} " + " ".join(cs)], v, sig.ret
 
     def create_call(self, n, env):
+        if not n.args and any(kw.arg == "generators" for kw in n.keywords):
+            gk = [kw for kw in n.keywords if kw.arg == "generators"][0]
+            n = ast.Call(func=n.func, args=[gk.value], keywords=[kw for kw in n.keywords if kw is not gk])
         if not 1 <= len(n.args) <= 4:
             raise Unsupported("CayleyGraphDef.create positional arguments")
         binds, cg, tg = self._expr(n.args[0], env)
@@ -609,33 +652,43 @@ class FnTranslator:
             if isinstance(s, ast.Expr) and isinstance(s.value, ast.Constant) and isinstance(s.value.value, str):
                 continue  # docstring
             if isinstance(s, ast.Return):
-                if not last or tail is not None or s.value is None:
+                loop_ret = getattr(self, "loop_ret", None)
+                if not last or (tail is not None and loop_ret is None):
                     raise Unsupported("return that is not the last statement of the function")
-                b, c, t = self._expr(s.value, env)
-                lines += [ind + x for x in b] + [f"{ind}pure {c}"]
-                self.ret_type = t
+                b, c, t = self.ret_code(s.value, env)
+                if loop_ret is not None and tail is not None:
+                    lines += [ind + x for x in b] + [f"{ind}pure (some {c}, {loop_ret()})"]   # leave the loop with a value
+                else:
+                    lines += [ind + x for x in b] + [f"{ind}pure {c}"]
                 return lines, env
-            if isinstance(s, ast.If) and tail is None and self.ends_function(s.body) and (last or not s.orelse) \
+            in_loop_ret = tail is not None and getattr(self, "loop_ret", None) is not None
+            if isinstance(s, ast.If) and (tail is None or in_loop_ret) and self.ends_function(s.body) and (last or not s.orelse) \
                     and any(isinstance(x, ast.Return) for x in ast.walk(s)):
                 # `if c: …; return X` followed by the rest of the function (or by an else branch that also returns):
                 # the rest is the else branch
                 b, c, t = self._expr(s.test, env)
                 unify(t, "Bool")
                 rest = s.orelse if (last and s.orelse) else stmts[k + 1:]
-                if not rest:
+                if not rest and not in_loop_ret:
                     raise Unsupported("function may end without a return")
                 ind2 = ind + "    "
                 saved = set(getattr(self, "nonnull", ()))
-                l1, _ = self.block(s.body, dict(env), ind2, None)
+                l1, _ = self.block(s.body, dict(env), ind2, tail)
                 self.nonnull = saved
-                rt1 = self.ret_type
-                l2, _ = self.block(rest, dict(env), ind2, None)
+                l2, _ = self.block(rest, dict(env), ind2, tail)
                 self.nonnull = saved
-                if rt1 is not None and self.ret_type is not None:
-                    self.ret_type = unify(rt1, self.ret_type)
-                elif rt1 is not None:
-                    self.ret_type = rt1
                 lines += [ind + x for x in b] + [f"{ind}if {c} then do"] + l1 + [f"{ind}else do"] + l2
+                return lines, env
+            if isinstance(s, ast.For) and any(isinstance(x, ast.Return) for x in ast.walk(s)):
+                if tail is not None:
+                    raise Unsupported("return inside a nested loop")
+                fold_lines, state = self.for_stmt(s, env, ind, early=True)
+                ind2 = ind + "    "
+                v = self.fresh()
+                rest_lines, _ = self.block(stmts[k + 1:], dict(env), ind2, None)
+                lines += fold_lines
+                lines += [f"{ind}if (Option.isSome st.1) then do", f"{ind2}let {v} ← st.1", f"{ind2}pure {v}", f"{ind}else do"]
+                lines += self.unpack(state, "st.2", ind2) + rest_lines
                 return lines, env
             if isinstance(s, ast.Raise) and last:
                 lines.append(f"{ind}none")     # the block ends by raising: no value
@@ -646,6 +699,23 @@ class FnTranslator:
             raise Unsupported("function without a final return")
         lines.append(f"{ind}pure {tail(env)}")
         return lines, env
+
+    def ret_code(self, value, env):
+        """code of a returned value; in a function that also has `return None` every other value is wrapped in `some`"""
+        if value is None:
+            raise Unsupported("bare return")
+        if getattr(self, "ret_optional", False):
+            if isinstance(value, ast.Constant) and value.value is None:
+                t = ("Opt", Cell())
+                self.ret_type = t if self.ret_type is None else unify(self.ret_type, t)
+                return [], "none", self.ret_type
+            b, c, t = self._expr(value, env)
+            t = ("Opt", t)
+            self.ret_type = t if self.ret_type is None else unify(self.ret_type, t)
+            return b, f"(some {c})", self.ret_type
+        b, c, t = self._expr(value, env)
+        self.ret_type = t if self.ret_type is None else unify(self.ret_type, t)
+        return b, c, self.ret_type
 
     def ends_function(self, stmts):
         """the statement list always leaves the function (its last statement is a return / raise, or an if whose
@@ -664,6 +734,10 @@ class FnTranslator:
         if isinstance(s, ast.Assert):
             b, c, t = self._expr(s.test, env)
             unify(t, "Bool")
+            tt = s.test
+            if isinstance(tt, ast.Compare) and len(tt.ops) == 1 and isinstance(tt.ops[0], ast.IsNot) and isinstance(tt.left, ast.Name) \
+                    and isinstance(tt.comparators[0], ast.Constant) and tt.comparators[0].value is None:
+                self.nonnull = set(getattr(self, "nonnull", ())) | {tt.left.id}   # holds a value from here on
             return [ind + x for x in b] + [f"{ind}pyAssert {c}"]
         if isinstance(s, ast.AugAssign):
             if not isinstance(s.op, ast.Add):
@@ -763,7 +837,7 @@ class FnTranslator:
             return [ind + y for y in b] + [f"{ind}let {self.nm(x)} ← pySet {self.nm(x)} {c} {code}"]
         raise Unsupported("assignment target")
 
-    def for_stmt(self, s, env, ind):
+    def for_stmt(self, s, env, ind, early=False):
         if s.orelse:
             raise Unsupported("for-else")
         it, target, enum_var = s.iter, s.target, None
@@ -821,6 +895,23 @@ class FnTranslator:
         state = [x for x in self.assigned(s.body) if x in env and x not in loop_vars]
         body_lines = self.unpack(state, "st", ind2) + pre
         saved_nn = set(getattr(self, "nonnull", ()))
+        if early:
+            # a loop that may `return`: the fold state is (value returned so far : Option R, variables); once a value is
+            # there the remaining iterations do nothing
+            ind3 = ind2 + "    "
+            body_lines = [f"{ind2}if (Option.isSome st.1) then pure st else do"] + \
+                self.unpack(state, "st.2", ind3) + [ln.replace(ind2, ind3, 1) if isinstance(ln, str) else ln for ln in pre]
+            saved_lr = getattr(self, "loop_ret", None)
+            self.loop_ret = lambda: self.tuple_code(state)
+            try:
+                inner, _ = self.block(s.body, env_body, ind3, tail=lambda e: f"(none, {self.tuple_code(state)})")
+            finally:
+                self.nonnull = saved_nn
+                self.loop_ret = saved_lr
+            body_lines += inner
+            L = [ind + x for x in b_it]
+            L.append(("FOLDRET", ind, state, var_decl[0], c_it, body_lines, env, var_decl[1]))
+            return L, state
         try:
             inner, _ = self.block(s.body, env_body, ind2, tail=lambda e: self.tuple_code(state))
         finally:
@@ -914,6 +1005,15 @@ class FnTranslator:
                 out += self.render(body)
                 out.append(f"{ind}    ) {self.tuple_code(state)} {c_it}")
                 out += self.unpack(state, "st", ind)
+            elif ln[0] == "FOLDRET":
+                _, ind, state, var, c_it, body, env, vty = ln
+                sty = self.tuple_type(state, env)
+                rty = show_ty(resolve(self.ret_type))
+                rty = rty if " " not in rty else f"({rty})"
+                vname = var if var.startswith("t_") else self.nm(var)
+                out.append(f"{ind}let st ← List.foldlM (fun (st : Option {rty} × ({sty})) ({vname} : {show_ty(vty)}) => do")
+                out += self.render(body)
+                out.append(f"{ind}    ) (none, {self.tuple_code(state)}) {c_it}")
             elif ln[0] == "IF":
                 _, ind, state, c, tl, el, env = ln
                 sty = self.tuple_type(state, env)
@@ -940,6 +1040,8 @@ class FnTranslator:
             env[a.arg] = ty
         self.cur_name = lean_name or f.name
         self.ret_type = None
+        self.ret_optional = any(isinstance(x, ast.Return) and isinstance(x.value, ast.Constant) and x.value.value is None
+                                for x in ast.walk(f))
         lines, _ = self.block(f.body, env, "  ", tail=None)
         body = self.render(lines)
         ret = show_ty(self.ret_type)
@@ -961,7 +1063,11 @@ def strip_decorators(f):
 
 def translate_module(path, want, sigs, namespace, header, class_name=None):
     """translate the functions `want` (None = all) of a module (or of one class in it)"""
-    tree = ast.parse(open(path).read())
+    if isinstance(path, tuple):       # (label, prepared list of function definitions)
+        path, prepared = path
+        tree = ast.Module(body=prepared, type_ignores=[])
+    else:
+        tree = ast.parse(open(path).read())
     body = tree.body
     if class_name:
         body = [n for n in tree.body if isinstance(n, ast.ClassDef) and n.name == class_name][0].body
@@ -1033,6 +1139,15 @@ def dispatcher(*sig_maps):
                 elif t == ("List", "Int"):
                     pats.append(v)
                     args.append(v)
+                elif t == ("List", "Str"):       # protocol: the string list ["n<i>" for i in ints]
+                    pats.append(v)
+                    args.append(f'({v}.map fun i => "n" ++ toString i)')
+                elif t == "Str":                 # protocol: [] -> "", [i] -> "s<i>"
+                    pats.append(v)
+                    args.append(f'(match {v} with | [] => "" | i :: _ => "s" ++ toString i)')
+                elif t == ("Opt", ("List", "Int")):   # protocol: 1 :: xs -> some xs, anything else -> none
+                    pats.append(v)
+                    args.append(f"(match {v} with | 1 :: xs => some xs | _ => none)")
                 else:
                     ok = False
             if not ok:
@@ -1041,7 +1156,7 @@ def dispatcher(*sig_maps):
             pat = " :: ".join(pats + (["rest"] if has_rest else ["[]"])) if pats else ("rest" if has_rest else "[]")
             short = sig.lean_name[len("Cv.PyGen."):]
             cases.append(f'  | "{short}", {pat} => showRes ({sig.lean_name} ' + " ".join(args) + ")")
-    return (HEADER + "import CvGen.PyPerm\nimport CvGen.PyFamilies\nimport CvGen.PyGlobe\nimport CvGen.PyRings\n\nnamespace Cv.PyGen\nopen Cv.Py\n\n" + SHOW_LEAN
+    return (HEADER + "import CvGen.PyPerm\nimport CvGen.PyFamilies\nimport CvGen.PyGlobe\nimport CvGen.PyRings\nimport CvGen.PyGraphDef\n\nnamespace Cv.PyGen\nopen Cv.Py\n\n" + SHOW_LEAN
             + "def dispatch (fn : String) (args : List (List Int)) : String :=\n  match fn, args with\n"
             + "\n".join(cases) + "\n  | _, _ => \"ERR pygen\"\n\nend Cv.PyGen\n")
 
@@ -1068,6 +1183,78 @@ def showRes {α : Type} [ShowRes α] : Option α → String
 """
 
 
+class _SelfRewriter(ast.NodeTransformer):
+    """`CayleyGraphDef` methods -> functions of the object's fields, PERMUTATION branch only.
+
+    `if self.generators_type == GeneratorType.PERMUTATION: A else: B`  ->  A
+    `self.generators_permutations` -> gens, `self.generator_names` -> names, `self.central_state` -> central, `self.name` -> name,
+    `self.n_generators` -> len(gens), `self.generators_inverse_closed` -> inverse_closed, `self.generators_inverse_map` -> inverse_map,
+    `return self` -> `return CayleyGraphDef.create(gens, names, central, name)` (the same definition)."""
+
+    FIELDS = {"generators_permutations": "gens", "generator_names": "names", "central_state": "central", "name": "name",
+              "generators_inverse_closed": "inverse_closed", "generators_inverse_map": "inverse_map"}
+
+    def __init__(self):
+        self.used = set()
+
+    def visit_If(self, node):
+        t = ast.unparse(node.test)
+        if t == "self.generators_type == GeneratorType.PERMUTATION":
+            out = []
+            for st in node.body:
+                r = self.visit(st)
+                out += r if isinstance(r, list) else [r]
+            return out
+        return self.generic_visit(node)
+
+    def visit_Attribute(self, node):
+        if isinstance(node.value, ast.Name) and node.value.id == "self":
+            if node.attr == "n_generators":
+                self.used.add("gens")
+                return ast.Call(func=ast.Name(id="len", ctx=ast.Load()), args=[ast.Name(id="gens", ctx=ast.Load())], keywords=[])
+            if node.attr in self.FIELDS:
+                self.used.add(self.FIELDS[node.attr])
+                return ast.Name(id=self.FIELDS[node.attr], ctx=node.ctx)
+            raise Unsupported(f"self.{node.attr}")
+        return self.generic_visit(node)
+
+    def visit_Return(self, node):
+        if isinstance(node.value, ast.Name) and node.value.id == "self":
+            self.used |= {"gens", "names", "central", "name"}
+            return ast.Return(value=ast.parse("CayleyGraphDef.create(gens, names, central, name)").body[0].value)
+        return self.generic_visit(node)
+
+
+GRAPHDEF_PARAM_TYPES = {"gens": "list[list[int]]", "names": "list[str]", "central": "list[int]", "name": "str",
+                        "inverse_closed": "bool", "inverse_map": "Optional[list[int]]", "path": "list[int]"}
+
+
+def graphdef_functions(repo):
+    """synthetic module: the permutation branch of four `CayleyGraphDef` methods as functions of the fields they read"""
+    tree = ast.parse(open(f"{repo}/cayleypy/cayley_graph_def.py").read())
+    cls = [n for n in tree.body if isinstance(n, ast.ClassDef) and n.name == "CayleyGraphDef"][0]
+    funcs, report = [], {}
+    for name in ("generators_inverse_map", "with_inverted_generators", "make_inverse_closed", "revert_path"):
+        try:
+            m = [n for n in cls.body if isinstance(n, ast.FunctionDef) and n.name == name][0]
+            rw = _SelfRewriter()
+            body = []
+            for st in m.body:
+                r = rw.visit(st)
+                body += r if isinstance(r, list) else [r]
+            own = [a.arg for a in m.args.args if a.arg != "self"]
+            order = [p for p in ("gens", "names", "central", "name", "inverse_closed", "inverse_map") if p in rw.used] + own
+            args = ast.arguments(posonlyargs=[], args=[ast.arg(arg=p, annotation=ast.parse(GRAPHDEF_PARAM_TYPES[p]).body[0].value) for p in order],
+                                 kwonlyargs=[], kw_defaults=[], defaults=[], vararg=None, kwarg=None)
+            fn = ast.FunctionDef(name=name, args=args, body=body, decorator_list=[], returns=None, lineno=m.lineno, col_offset=0)
+            ast.fix_missing_locations(fn)
+            funcs.append(fn)
+            report[name] = "params: " + ", ".join(order)
+        except (Unsupported, IndexError, KeyError) as e:
+            report[name] = f"not extracted: {e}"
+    return funcs, report
+
+
 HEADER = """/- REGENERATED from /repo on every run by harness/extract/pylean.py — do not edit. -/
 import CvModel.PyPrelude
 """
@@ -1086,9 +1273,14 @@ def generate(repo, outdir):
                                           HEADER + "import CvGen.PyPerm\n")
     rings_src = f"{repo}/cayleypy/puzzles/hungarian_rings.py"
     text5, sigs5, rep5 = translate_module(rings_src, None, {}, "Cv.PyGen.Rings", HEADER)
-    text3 = dispatcher(sigs, sigs2, sigs4, sigs5)
+    gfuncs, gparams = graphdef_functions(repo)
+    text6, sigs6, rep6 = translate_module(("cayley_graph_def.py", gfuncs), None, sigs, "Cv.PyGen.GraphDef", HEADER + "import CvGen.PyPerm\n")
+    rep6 = {k: (v + " (" + gparams.get(k, "") + ")") for k, v in rep6.items()}
+    for k, v in gparams.items():
+        rep6.setdefault(k, v)
+    text3 = dispatcher(sigs, sigs2, sigs4, sigs5, sigs6)
     changed = False
-    for name, text in (("PyPerm.lean", text1), ("PyFamilies.lean", text2), ("PyGlobe.lean", text4), ("PyRings.lean", text5), ("PyDispatch.lean", text3)):
+    for name, text in (("PyPerm.lean", text1), ("PyFamilies.lean", text2), ("PyGlobe.lean", text4), ("PyRings.lean", text5), ("PyGraphDef.lean", text6), ("PyDispatch.lean", text3)):
         p = f"{outdir}/{name}"
         try:
             old = open(p).read()
@@ -1097,7 +1289,7 @@ def generate(repo, outdir):
         if old != text:
             open(p, "w").write(text)
             changed = True
-    return {"permutation_utils": rep1, "graphs_lib": rep2, "globe": rep4, "hungarian_rings": rep5, "changed": changed}
+    return {"permutation_utils": rep1, "graphs_lib": rep2, "globe": rep4, "hungarian_rings": rep5, "cayley_graph_def": rep6, "changed": changed}
 
 
 if __name__ == "__main__":
